@@ -264,6 +264,66 @@ def run(chk, tier):
     bits_r = sorted({H.int_lit(H.peel(x)[4]) for x in H.walk(pd_r) if H.kind(H.peel(x)) == "bin" and H.peel(x)[2] == "BitAnd" and H.int_lit(H.peel(x)[4]) is not None}) if pd_r is not None else []
     chk.expect(bits_w == [1, 2] and bits_r == [1, 2], "pdu-tables", "P-DATA", "message-control-header-bits", "0x01 command, 0x02 last (both sides)", {"writer": bits_w, "reader": bits_r})
 
+    # ---------- rule 1d: framing — the length-prefixed chunk encloses the whole content of its item
+    chk.rule("item-framing", "in every block of the writer module, no byte is written after a write_chunk_uN call at the same level: an item is "
+             "type byte, reserved byte, then one length-prefixed chunk that contains all of its content (so every length field covers what it describes)")
+    WRITE_NAMES = {"write_u8", "write_u16", "write_u32", "write_u64", "write_all", "push", "extend", "extend_from_slice", "write"}
+
+    def stmt_event(e):
+        """outermost write event of a statement expression: 'C' chunk call, 'W' direct write, None otherwise (nested blocks are separate)"""
+        e = H.peel(e)
+        while True:
+            if H.kind(e) == "match" and e[5].startswith("TryDesugar"):
+                op = H.peel(e[2])
+                e = H.peel(op[3][0]) if H.kind(op) == "call" and op[3] else op
+                continue
+            if H.kind(e) == "mcall" and e[3] in ("context", "with_context", "map_err"):
+                e = H.peel(e[4])
+                continue
+            break
+        if H.kind(e) == "call" and (H.callee(e) or "").split("::")[-1] in ("write_chunk_u16", "write_chunk_u32"):
+            return "C"
+        if H.kind(e) == "mcall" and e[3] in WRITE_NAMES:
+            if e[3] == "write_u8" and e[5] and H.int_lit(e[5][0]) == 0:
+                return "R"   # reserved byte
+            if e[3] == "write_u8":
+                return "T"   # a single byte: item type (or a one-byte field)
+            return "W"
+        return None
+
+    n_blocks = 0
+    for h in d["hir"]:
+        if not h["path"].startswith(f"{PDU}::writer::") or h["path"].split("::")[-1] in ("write_chunk_u16", "write_chunk_u32", "chunk_too_long"):
+            continue
+        for blk in H.walk(h["body"]):
+            if H.kind(blk) != "block":
+                continue
+            evs = []
+            for s in blk[2]:
+                ev = stmt_event(s[2] if H.kind(s) in ("semi", "sexpr") else (s[3] if H.kind(s) == "slet" and s[3] is not None else s))
+                if ev:
+                    evs.append((ev, s[1]))
+            if blk[3] is not None:
+                ev = stmt_event(blk[3])
+                if ev:
+                    evs.append((ev, blk[3][1]))
+            if not any(e == "C" for e, _ in evs):
+                continue
+            n_blocks += 1
+            # item-level chunks: `type byte, reserved byte, chunk`; nested length-prefixed *fields* (a chunk not introduced by T,R) may be followed by more fields
+            kinds = [e for e, _ in evs]
+            item_c = [i for i in range(2, len(evs)) if kinds[i] == "C" and kinds[i - 1] == "R" and kinds[i - 2] == "T"]
+            if not item_c:
+                continue
+            first_c = item_c[0]
+            rest = kinds[first_c + 1:]
+            # after an item chunk only further complete items (T R C) may follow
+            ok_tail = len(rest) % 3 == 0 and all(rest[j:j + 3] == ["T", "R", "C"] for j in range(0, len(rest), 3))
+            after = [] if ok_tail else [(e, ln) for e, ln in evs[first_c + 1:]]
+            chk.expect(not after, "item-framing", h["path"].split("::")[-1], f"block@chunk#{n_blocks}", "no direct write after the chunk at the same level",
+                       f"writes at lines {[ln for _, ln in after]} follow the chunk" if after else "ok", loc=f"{h['loc']['f']}:{evs[first_c][1]}")
+    chk.floor("item-framing", "blocks containing a length-prefixed chunk", n_blocks, 15)
+
     # ---------- rule 2
     chk.rule("chunk-length", "write_chunk_u16/u32 use a checked conversion of data.len() whose failure is returned; no narrowing integer cast of a length in the writer module")
     for fn, ty in (("write_chunk_u16", "u16"), ("write_chunk_u32", "u32")):
